@@ -172,6 +172,13 @@ EXPLORE.update({
            "annotated disjunctions), PrologString(str(t) + '.') yields exactly one clause == t. Three defects found this way "
            "were repaired (fix: commits).",
 })
+EXPLORE.update({
+    "C27": "Run-time contract on get_evaluatable().create_from(PrologString(text)).evaluate(): it returns or raises a "
+           "ProbLogError subclass within 20 s, never another exception, for (a) every registered builtin (I/O, consult, module "
+           "and state builtins excluded) called with seeded argument shapes in three program contexts, (b) family programs plus "
+           "one of 30 kinds of user error, (c) token-level mutations of family programs. Twelve defects found this way were "
+           "repaired (fix: commits).",
+})
 FUNCTION_LEVEL = ("C11", "C13", "C14", "C18", "C17")
 FN_BOUNDED_TECH = ("run-time contract (pre/post-condition against an independent reference) on the real functions over a "
                    "bounded input family; the deductive contracts planned for these functions were not built, so nothing "
